@@ -123,6 +123,25 @@ def run_task(task):
                                "f'{sentinel()}'", "f'{1+1}'+'a'", "b'a'+bytes(sentinel())"]):
             if i % nparts == part:
                 check('lit:nonliteral', 'x=' + e, res, sets())
+        # systematic: every unary/binary shape of depth <= 2 over {literal, call, attribute, name, subscript} leaves with at least one non-literal leaf
+        leaves = ['1', '2.5', 'sentinel()', 'sentinel.__name__', 'sentinel', '(sentinel(),1)[1]', "print('x')", 'len((1,2))']
+        unary = ['', '-', '+', '~', 'not ']
+        operands = [u + l for u in unary for l in leaves]
+        n = 0
+        for a in operands:
+            for b in operands:
+                if a.lstrip('-+~not ') in ('1', '2.5') and b.lstrip('-+~not ') in ('1', '2.5'):
+                    continue
+                for op in lits.BINOPS:
+                    n += 1
+                    if n % nparts != part:
+                        continue
+                    e = '%s%s%s' % (a, op, b)
+                    check('lit:shape', 'x=' + e, res, sets()[:1])
+                    if op in ('+', '*', '-'):
+                        check('lit:shape', 'x=(%s)%s3' % (e, op), res, sets()[:1])
+                        check('lit:shape', 'x=3%s(%s)' % (op, e), res, sets()[:1])
+                        check('lit:shape', 'x=-(%s)' % e, res, sets()[:1])
     return res
 
 
